@@ -398,6 +398,10 @@ func main() {
 		res.Write(o)
 		return
 	}
+	if o.Replay != "" && prop == "C01" && replayAlias(o.Replay, res) {
+		res.Write(o)
+		return
+	}
 	if o.Replay != "" && (prop == "C05" || prop == "C10") && replayDef(prop, o.Replay, res) {
 		res.Write(o)
 		return
@@ -507,8 +511,13 @@ func main() {
 		// the payload-length clause on action types outside the modelled fragment (direct oracle only)
 		payloadStream(rnd.Fork("payload"), o.Count(300, 6000), res)
 	}
+	if prop == "C01" && !hung {
+		// flow assets whose asset UUID differs from the uuid inside their definition (direct oracle only)
+		aliasStream(rnd.Fork("alias"), o.Count(120, 2500), res)
+	}
 	if prop == "C05" && !hung && o.Replay == "" {
 		deepProbe(prop, res)
+		amplifyProbe(prop, uint64(o.Seed), res)
 	}
 	if (prop == "C05" || prop == "C10") && !hung {
 		// definitions outside the modelled fragment: flow types changed between sprints, odd reference lists
@@ -671,6 +680,31 @@ func corpus(prop string) []corpusCase {
 			}
 			out = append(out, corpusCase{Assets: mk(false), Trigger: Trigger{Kind: "manual", Flow: 1},
 				Ops: []Op{{Kind: "msg", Text: "a", Assets: mk(true), Fault: fmt.Sprintf("flow %d edited, no longer valid (dangling-destination)", which)}, {Kind: "msg", Text: "b"}}})
+		}
+	}
+	if prop == "C10" || prop == "C01" {
+		// a session paused inside a sub-flow; between sprints the node the PARENT run is located at (its enter_flow node)
+		// is deleted / loses nothing else; the child's wait accepts the resume, the child completes and the engine
+		// tries to continue the parent: the parent run fails ("node no longer exists"), the failure bubbles up, the
+		// session ends failed - and Resume returns no Go error (seeded change C10_bare_return_leaks_go_error).
+		// Second entry: the grandparent's node vanished (the failure bubbles through two levels).
+		for _, depth := range []int{2, 3} {
+			mk := func(gone bool) *Assets {
+				a := &Assets{Opts: std}
+				for fl := 1; fl < depth; fl++ {
+					p := plain(fl*100+1, enter(fl+1, false))
+					p.Exits[0].Dest = fl*100 + 2
+					a.Flows = append(a.Flows, &Flow{ID: fl, Nodes: []*Node{p, plain(fl*100+2, Action{Kind: "send_msg", Text: "b"})}})
+				}
+				wn := waitNode(depth*100 + 1)
+				a.Flows = append(a.Flows, &Flow{ID: depth, Nodes: []*Node{wn}})
+				if gone {
+					a.rawFlow(1).removeNode(101)
+				}
+				return a
+			}
+			out = append(out, corpusCase{Assets: mk(false), Trigger: Trigger{Kind: "manual", Flow: 1},
+				Ops: []Op{{Kind: "msg", Text: "a", Assets: mk(true), Fault: "node 101 deleted (the node an ancestor run is located at)"}, {Kind: "msg", Text: "b"}}})
 		}
 	}
 	if prop == "C05" {
